@@ -2,6 +2,7 @@ import SspModel.Model.Pk
 import SspModel.Model.Life
 import SspModel.Model.Eject
 import SspModel.Model.Kicks
+import SspModel.Model.IMF
 /-!
 # Line-protocol driver: one op per line in, one line out. Doubles cross as 16-hex-digit bit patterns.
 Runs the *same* model terms the theorems are about, at the `Float` instance.
@@ -74,6 +75,26 @@ def step (ws : List String) : String :=
     | .ok (r, d) => s!"ok {d} {pairsOut r}"
     | .error .kicksOverBudget => "err kicksOverBudget"
     | .error _ => "err overEject"
+  | "imfa" :: rest =>
+    let (mb, r1) := takeList rest
+    let (a, _) := takeList r1
+    fl (imfA (mkSegs mb a))
+  | "imfeval" :: ext :: n :: m :: rest =>
+    let (mb, r1) := takeList rest
+    let (a, _) := takeList r1
+    match imfEval ext.toNat! (mkSegs mb a) (parseHex n) (parseHex m) with
+    | .ok v => toHex v
+    | .error _ => "err"
+  | "binned" :: ext :: n :: lo :: hi :: rest =>
+    let (mb, r1) := takeList rest
+    let (a, _) := takeList r1
+    match binnedEval1 ext.toNat! (mkSegs mb a) (parseHex n) (parseHex lo) (parseHex hi) with
+    | .ok (N, M, al) => s!"{optHex N} {optHex M} {toHex al}"
+    | .error _ => "err"
+  | "mtot" :: n :: rest =>
+    let (mb, r1) := takeList rest
+    let (a, _) := takeList r1
+    toHex (imfMtot (mkSegs mb a) (parseHex n))
   | ["mrem", d, mb, mt] => toHex (Mrem (parseHex d) (parseHex mb) (parseHex mt))
   | ["sigmoid", slope, scale, m] => toHex (sigmoidRet (parseHex slope) (parseHex scale) (parseHex m))
   | ["erf", x] => toHex (Scalar.erf (parseHex x))
